@@ -176,6 +176,11 @@ def expr_src(t, prefix=''):
             return ('len(%s)' % x) if prefix else ('%s.__len__()' % x)
         if t[1] == 'truth':
             return ('bool(%s)' % x) if prefix else ('%s.__nonzero__()' % x)
+    if k == 'call':
+        # a user's helper (defined in the module header) called from a lambda: nonzero(v) raises a BARE ValueError() for 0
+        if not prefix:
+            raise ValueError('helper calls exist in the lambda spelling only')
+        return '%s(%s)' % (t[1], expr_src(t[2], prefix))
     raise ValueError(t)
 
 
@@ -192,6 +197,12 @@ def expr_eval(t, vals):
         if t[1] == 'len':
             return len(x)
         return getattr(operator, t[1])(x)
+    if k == 'call':
+        x = expr_eval(t[2], vals)
+        if t[1] == 'nonzero':
+            if not x:
+                raise ValueError()
+            return x
     raise ValueError(t)
 
 
